@@ -387,6 +387,16 @@ static const char *rd_err_name(int code)
   case JERR_GIF_CODESIZE: return "GIF_CODESIZE";
   case JERR_TGA_BADPARMS: return "TGA_BADPARMS";
   case JERR_TGA_BADCMAP: return "TGA_BADCMAP";
+  case JERR_BMP_NOT: return "BMP_NOT";
+  case JERR_BMP_BADHEADER: return "BMP_BADHEADER";
+  case JERR_BMP_BADDEPTH: return "BMP_BADDEPTH";
+  case JERR_BMP_COMPRESSED: return "BMP_COMPRESSED";
+  case JERR_BMP_EMPTY: return "BMP_EMPTY";
+  case JERR_BMP_BADPLANES: return "BMP_BADPLANES";
+  case JERR_BMP_BADCMAP: return "BMP_BADCMAP";
+  case JERR_BMP_OUTOFRANGE: return "BMP_RANGE";
+  case JERR_BAD_IN_COLORSPACE: return "BADCS";
+  case JERR_WIDTH_OVERFLOW: return "WIDTH_OVERFLOW";
   case JERR_UNKNOWN_FORMAT: return "UNKNOWN";
   case JERR_BAD_PRECISION: return "BADPREC";
   }
@@ -430,6 +440,7 @@ static void cmd_rd(char *p)
     ungetc(c, f);
   }
   switch (c) {
+  case 'B': src = jinit_read_bmp(&cinfo, TRUE); break;     /* cjpeg: inversion array */
   case 'G': src = jinit_read_gif(&cinfo); break;
   case 0x00: src = jinit_read_targa(&cinfo); break;
   default: ERREXIT(&cinfo, JERR_UNKNOWN_FORMAT);
